@@ -6,8 +6,8 @@
    below they are the Section variable `migs` (any functions from the tdset to doc actions).  So the theorems
    here are about the driver and the interpreter for ALL possible migration bodies; that the real bodies
    never raise on type-correct metadata (the property's totality clause, C25_full_statement below) is NOT
-   proved -- it is only searched for on generated old-version documents by harness/props/c25.py, and that
-   search finds documents on which they do raise (known findings).
+   proved -- it is only searched for on generated old-version documents by harness/props/c25.py (that search
+   found eight defects: seven repaired in /repo, migration 7 still a known finding).
 
    Statements only; proofs are in Proofs/Migrate_proofs.v. *)
 From Coq Require Import ZArith Bool String List Sorted.
@@ -158,41 +158,61 @@ Example C25_meta_only_example :
 Proof. split; vm_compute; reflexivity. Qed.
 
 (* ---- The places where a migration reads JSON out of a Text cell (Model/MigrateSites.v: raise behaviour only,
-        compared with the real migrations on one-cell documents on every run). ---- *)
+        compared with the real migrations on one-cell documents on every run).  Since fix 5a4118c every site
+        guards the operation it performs; the *_raw functions are those operations without the guard. ---- *)
 Require Import Grist.Model.MigrateSites Grist.Proofs.MigrateSites_proofs.
 
-(* "No valid JSON makes a migration raise" is false for the current code, at each of the six sites. *)
+(* No valid JSON, of whatever shape, makes a migration raise at any of the six sites. *)
 Definition C25_json_sites_total_statement : Prop := forall n key j, site_fn n key j = Ok tt.
 
-Theorem C25_json_sites_refuted : ~ C25_json_sites_total_statement.
-Proof. intro H. specialize (H 34 [] JNull). vm_compute in H. discriminate H. Qed.
+Theorem C25_json_sites_total : C25_json_sites_total_statement.
+Proof. exact sites_total. Qed.
 
-Theorem C25_json_sites_refuted_each :
-  m15_site (zs "3") (JNum (JInt 5)) = Err TypeErr /\
-  m15_site (zs "3") (JStr (zs "3")) = Err TypeErr /\
-  m16_site (JArr [JNum (JInt 1); JNum (JInt 2)]) = Err TypeErr /\
-  m16_site (JStr (zs "s")) = Err AttrErr /\
-  m16_site (JObj [(zs "visibleCol", JArr [JStr (zs "x")])]) = Err TypeErr /\
-  m29_site (JArr [JNum (JInt 1); JNum (JInt 2)]) = Err AttrErr /\
-  m34_site JNull = Err AttrErr /\
-  m34_site (JArr [JNum (JInt 1); JNum (JInt 2)]) = Err AttrErr /\
-  m35_site (JNum (JInt 5)) = Err TypeErr /\
-  m35_site (JObj [(zs "a", JNum (JInt 1))]) = Err KeyErr /\
-  m35_site (JArr [JStr (zs "Comment")]) = Err IndexErr /\
-  m45_site (JObj [(zs "timeCreated", JStr (zs "x"))]) = Err TypeErr /\
-  m45_site (JObj [(zs "timeUpdated", JNum (JFlt 9218868437227405312))]) = Err OverflowErr /\
-  m45_site (JObj [(zs "timeCreated", JNum (JFlt 9221120237041090560))]) = Err ValueErr.
-Proof. exact sites_raise. Qed.
+(* Regression: the inputs that made the sites raise before the repair now pass ... *)
+Example C25_json_sites_old_witnesses_pass :
+  m15_site (zs "3") (JNum (JInt 5)) = Ok tt /\
+  m15_site (zs "3") (JStr (zs "3")) = Ok tt /\
+  m16_site (JArr [JNum (JInt 1); JNum (JInt 2)]) = Ok tt /\
+  m16_site (JStr (zs "s")) = Ok tt /\
+  m16_site (JObj [(zs "visibleCol", JArr [JStr (zs "x")])]) = Ok tt /\
+  m29_site (JArr [JNum (JInt 1); JNum (JInt 2)]) = Ok tt /\
+  m34_site JNull = Ok tt /\
+  m34_site (JArr [JNum (JInt 1); JNum (JInt 2)]) = Ok tt /\
+  m35_site (JNum (JInt 5)) = Ok tt /\
+  m35_site (JObj [(zs "a", JNum (JInt 1))]) = Ok tt /\
+  m35_site (JArr [JStr (zs "Comment")]) = Ok tt /\
+  m45_site (JObj [(zs "timeCreated", JStr (zs "x"))]) = Ok tt /\
+  m45_site (JObj [(zs "timeUpdated", JNum (JFlt 9218868437227405312))]) = Ok tt /\
+  m45_site (JObj [(zs "timeCreated", JNum (JFlt 9221120237041090560))]) = Ok tt.
+Proof. repeat split; vm_compute; reflexivity. Qed.
 
-(* On the shape each migration expects (the narrowest hypothesis excluding the defect) no site raises:
-   a JSON object (15, 29, 34); an object whose visibleCol is absent or a scalar (16); an empty value or a list
-   that is not a Comment node or has 3 items (35); not an object, or an object whose timeCreated/timeUpdated are
-   absent, null, booleans or finite numbers (45). *)
-Theorem C25_json_sites_total_on_expected_shapes : forall key j,
-  (ws_obj j = true -> m15_site key j = Ok tt /\ m29_site j = Ok tt /\ m34_site j = Ok tt) /\
-  (ws_m16 j = true -> m16_site j = Ok tt) /\
-  (ws_m35 j = true -> m35_site j = Ok tt) /\
-  (ws_m45 j = true -> m45_site j = Ok tt).
+(* ... while the operations behind the guards do raise on them (why the guards are needed). *)
+Example C25_json_raw_operations_raise :
+  m15_raw (zs "3") (JNum (JInt 5)) = Err TypeErr /\
+  m15_raw (zs "3") (JStr (zs "3")) = Err TypeErr /\
+  m16_raw (JArr [JNum (JInt 1); JNum (JInt 2)]) = Err TypeErr /\
+  m16_raw (JStr (zs "s")) = Err AttrErr /\
+  m16_raw (JObj [(zs "visibleCol", JArr [JStr (zs "x")])]) = Err TypeErr /\
+  m29_raw (JArr [JNum (JInt 1); JNum (JInt 2)]) = Err AttrErr /\
+  m34_raw JNull = Err AttrErr /\
+  m34_raw (JArr [JNum (JInt 1); JNum (JInt 2)]) = Err AttrErr /\
+  m35_raw (JNum (JInt 5)) = Err TypeErr /\
+  m35_raw (JObj [(zs "a", JNum (JInt 1))]) = Err KeyErr /\
+  m35_raw (JArr [JStr (zs "Comment")]) = Err IndexErr /\
+  m45_raw (JObj [(zs "timeCreated", JStr (zs "x"))]) = Err TypeErr /\
+  m45_raw (JObj [(zs "timeUpdated", JNum (JFlt 9218868437227405312))]) = Err OverflowErr /\
+  m45_raw (JObj [(zs "timeCreated", JNum (JFlt 9221120237041090560))]) = Err ValueErr.
+Proof. exact raw_ops_raise. Qed.
+
+(* The raw operations are safe exactly where the migrations expected them to be used: a JSON object (15, 29, 34);
+   an object whose visibleCol is absent or a scalar (16); an empty value or a list that is not a Comment node or
+   has 3 items (35); not an object, or one whose timeCreated/timeUpdated are absent, null, booleans or finite
+   numbers (45).  (These shapes are also the harness's table for blaming a cell, should a site regress.) *)
+Theorem C25_json_raw_total_on_expected_shapes : forall key j,
+  (ws_obj j = true -> m15_raw key j = Ok tt /\ m29_raw j = Ok tt /\ m34_raw j = Ok tt) /\
+  (ws_m16 j = true -> m16_raw j = Ok tt) /\
+  (ws_m35 j = true -> m35_raw j = Ok tt) /\
+  (ws_m45 j = true -> m45_raw j = Ok tt).
 Proof.
   intros key j. split; [intro H; split; [apply m15_ok_on_objects|split; [apply m29_ok_on_objects|apply m34_ok_on_objects]]; exact H|].
   split; [apply m16_ok_on_shape|]. split; [apply m35_ok_on_shape|apply m45_ok_on_shape].
